@@ -6,11 +6,11 @@ rows = []
 for d in sorted(os.listdir('/verif/seeded')):
     m = json.load(open(os.path.join('/verif/seeded', d, 'meta.json')))
     note = m.get('checks', {}).get('note', '')
-    this = 'round2' if note.startswith('round 2') else ('round3' if note.startswith('round 3') else 'round1')
+    this = 'round'+note[6] if note.startswith('round ') else 'round1'
     if this != rnd:
         continue
     cut = lambda s, n: (s[:n].rsplit(' ', 1)[0] + ' …') if len(s) > n else s
-    rows.append('| %s | %s | %s | %s | %s | %s |' % (d, m['property'], cut(m['summary'].replace('|', '/').replace('\n', ' '), 230), cut(m['needs'].replace('|', '/').replace('\n', ' '), 200), m['checks']['caught_by'].replace('|', '/'), note.replace('round 2; ', '').replace('round 3; ', '').replace('|', '/')))
+    rows.append('| %s | %s | %s | %s | %s | %s |' % (d, m['property'], cut(m['summary'].replace('|', '/').replace('\n', ' '), 230), cut(m['needs'].replace('|', '/').replace('\n', ' '), 200), m['checks']['caught_by'].replace('|', '/'), note.replace('round 2; ', '').replace('round 3; ', '').replace('round 4; ', '').replace('|', '/')))
 print('| seed | written against | change | needs | caught by | first contact |')
 print('|---|---|---|---|---|---|')
 print('\n'.join(rows))
